@@ -289,5 +289,8 @@ Proof.
   - apply (good_bind P sn true false false false false); [apply good_fetch_cmd| |ble_tac|ble_tac]. intros r. post_pure.
   - apply (good_post P sn true true true false false); [|ble_tac|ble_tac].
     apply (good_bind P sn true true true true true); [apply good_client_close|intros; apply good_ret|ble_tac|ble_tac].
+  - pre_lift. apply (good_bind P sn true false false false false); [apply good_fetch_cmd| |ble_tac|ble_tac]. intros r. post_pure.
+  - apply (good_try P sn true false false false false); [|intros e; apply good_ret|ble_tac|ble_tac].
+    apply (good_bind P sn true false false false false); [apply good_misc_cmd| |ble_tac|ble_tac]. intros r. post_pure.
 Qed.
 End ClientSim.
